@@ -6,6 +6,7 @@ import (
 	"fmt"
 	"strings"
 	"sync"
+	"time"
 
 	"github.com/pion/webrtc/v4"
 	"github.com/pion/webrtc/v4/internal/verifhook"
@@ -113,6 +114,7 @@ func c13Setups(sd webrtc.SessionDescription) ([]string, error) {
 }
 
 func c13Run(c c13Cell) (V, Verdict) {
+	signalOnly(true)
 	must := func(err error) {
 		if err != nil {
 			panic(err)
@@ -232,6 +234,106 @@ func c13Run(c c13Cell) (V, Verdict) {
 	return obs, v
 }
 
+// ---- connected mode (thorough tier): the same cells with real ICE and DTLS
+// over loopback.  Two ICE-lite agents never send connectivity checks, so the
+// lite/lite cells are left out.
+
+func c13ConnAPI(lite bool, role int) *webrtc.API {
+	se := webrtc.SettingEngine{}
+	se.SetICEMulticastDNSMode(0 + 1)
+	se.SetNetworkTypes([]webrtc.NetworkType{webrtc.NetworkTypeUDP4})
+	se.SetInterfaceFilter(func(n string) bool { return n == "lo" })
+	se.SetIncludeLoopbackCandidate(true)
+	se.SetLite(lite)
+	switch role {
+	case 1:
+		_ = se.SetAnsweringDTLSRole(webrtc.DTLSRoleClient)
+	case 2:
+		_ = se.SetAnsweringDTLSRole(webrtc.DTLSRoleServer)
+	}
+	return webrtc.NewAPI(webrtc.WithSettingEngine(se))
+}
+
+func c13ConnCells() []c13Cell {
+	var out []c13Cell
+	for _, la := range []bool{false, true} {
+		for _, lb := range []bool{false, true} {
+			if la && lb {
+				continue
+			}
+			for role := 0; role < 3; role++ {
+				for setup := 0; setup < 4; setup++ {
+					out = append(out, c13Cell{la, lb, role, setup, 0})
+				}
+			}
+		}
+	}
+	return out
+}
+
+func c13ConnRun(c c13Cell) (V, Verdict) {
+	signalOnly(false)
+	must := func(err error) {
+		if err != nil {
+			panic(err)
+		}
+	}
+	cell := fmt.Sprintf("liteA%d-liteB%d-role-%s-offer-%s", b2i(c.LiteA), b2i(c.LiteB), c13RoleNames[c.Role], c13SetupNames[c.Setup])
+	pcA, err := c13ConnAPI(c.LiteA, 0).NewPeerConnection(webrtc.Configuration{})
+	must(err)
+	defer pcA.Close() //nolint
+	pcB, err := c13ConnAPI(c.LiteB, c.Role).NewPeerConnection(webrtc.Configuration{})
+	must(err)
+	defer pcB.Close() //nolint
+	connected := make(chan struct{}, 4)
+	watch := func(pc *webrtc.PeerConnection) {
+		pc.OnConnectionStateChange(func(s webrtc.PeerConnectionState) {
+			if s == webrtc.PeerConnectionStateConnected {
+				connected <- struct{}{}
+			}
+		})
+	}
+	watch(pcA)
+	watch(pcB)
+	_, err = pcA.CreateDataChannel("d", nil)
+	must(err)
+	offer, err := pcA.CreateOffer(nil)
+	must(err)
+	ga := webrtc.GatheringCompletePromise(pcA)
+	must(pcA.SetLocalDescription(offer))
+	<-ga
+	munged := webrtc.SessionDescription{Type: webrtc.SDPTypeOffer, SDP: c13MungeSetup(pcA.LocalDescription().SDP, c.Setup)}
+	must(pcB.SetRemoteDescription(munged))
+	answer, err := pcB.CreateAnswer(nil)
+	must(err)
+	gb := webrtc.GatheringCompletePromise(pcB)
+	must(pcB.SetLocalDescription(answer))
+	<-gb
+	ansSetups, err := c13Setups(answer)
+	must(err)
+	must(pcA.SetRemoteDescription(*pcB.LocalDescription()))
+	deadline := time.After(12 * time.Second)
+	for n := 0; n < 2; {
+		select {
+		case <-connected:
+			n++
+		case <-deadline:
+			return VS("not-connected"), Fail("no-connection-"+cell,
+				fmt.Sprintf("states after 12 s: offerer %s, answerer %s (answer a=setup:%s)", pcA.ConnectionState(), pcB.ConnectionState(), ansSetups[0]))
+		}
+	}
+	iceA := int(pcA.SCTP().Transport().ICETransport().Role())
+	iceB := int(pcB.SCTP().Transport().ICETransport().Role())
+	dtlsA, dtlsB := int(pcA.VerifDTLSRoleLive()), int(pcB.VerifDTLSRoleLive())
+	obs := VL{VS(ansSetups[0]), VZ(iceA), VZ(iceB), VZ(dtlsA), VZ(dtlsB)}
+	if dtlsA == dtlsB || (iceA == c13Controlling) == (iceB == c13Controlling) {
+		return obs, Fail("connected-with-equal-roles-"+cell, fmt.Sprintf("ice %d/%d dtls %d/%d", iceA, iceB, dtlsA, dtlsB))
+	}
+	v := Pass(fmt.Sprintf("connected/role-%s/offer-%s", c13RoleNames[c.Role], c13SetupNames[c.Setup]), true)
+	v.Key = cell
+	return obs, v
+}
+
 func b2i(b bool) int {
 	if b {
 		return 1
@@ -300,6 +402,13 @@ func init() {
 			return out
 		},
 		Run: c13Run, Coq: c13Coq,
+	})
+	Register(Spec[c13Cell]{
+		ID: "C13", Suite: "connected", CoqImports: []string{"Check.C13"},
+		CoqType: "bool * bool * Z * Z", CoqRun: "Check.C13.run",
+		Quick: 1, Thorough: 36, Parallel: 6, Timeout: 40 * time.Second,
+		Gen: func(r *Rand, i int) c13Cell { cells := c13ConnCells(); return cells[i%len(cells)] },
+		Run: c13ConnRun, Coq: c13Coq,
 	})
 	Register(Spec[int]{
 		ID: "C13", Suite: "setter", CoqImports: []string{"Check.C13"},
